@@ -6,6 +6,7 @@ import (
 	"net/http"
 	"net/http/httptest"
 	"os"
+	"path/filepath"
 	"strconv"
 	"strings"
 
@@ -48,8 +49,33 @@ func HandlerPart(rep *rt.Report) {
 	defer os.RemoveAll(dir)
 	defer func() { logging.Logger = zap.NewNop() }()
 	n := 0
+	type hcase struct {
+		total  int
+		broken bool // the log FILES cannot be written (<workdir>/log is a regular file): the in-memory log must not depend on them
+	}
+	cases := []hcase{}
 	for _, total := range []int{0, 1, 5, logging.BufferSize - 1, logging.BufferSize, logging.BufferSize + 300} {
+		cases = append(cases, hcase{total, false})
+	}
+	cases = append(cases, hcase{5, true}, hcase{logging.BufferSize + 3, true})
+	brokenDir := filepath.Join(dir, "broken-sink")
+	if err := os.MkdirAll(brokenDir, 0o755); err == nil {
+		_ = os.WriteFile(filepath.Join(brokenDir, "log"), []byte("not a directory"), 0o644)
+	}
+	for _, hc := range cases {
+		total, dir := hc.total, dir
+		if hc.broken {
+			dir = brokenDir
+		}
 		fail := func() (fail string) {
+			if hc.broken {
+				// zap reports every failed file write on the process's stderr: silenced for this case
+				if null, err := os.OpenFile(os.DevNull, os.O_WRONLY, 0); err == nil {
+					saved := os.Stderr
+					os.Stderr = null
+					defer func() { os.Stderr = saved; null.Close() }()
+				}
+			}
 			defer func() {
 				if r := recover(); r != nil {
 					fail = fmt.Sprintf("panic: %v", r)
@@ -127,7 +153,11 @@ func HandlerPart(rep *rt.Report) {
 		}()
 		n++
 		if fail != "" {
-			rep.Violate(fmt.Sprintf("[handlers] %d entries written through the root logger and loggers derived once and twice: %s", total, fail), map[string]any{"run": "handlers", "total": total})
+			sink := ""
+			if hc.broken {
+				sink = " (the log files cannot be written)"
+			}
+			rep.Violate(fmt.Sprintf("[handlers] %d entries written through the root logger and loggers derived once and twice%s: %s", total, sink, fail), map[string]any{"run": "handlers", "total": total, "broken_sink": hc.broken})
 			break
 		}
 	}
